@@ -11,6 +11,7 @@ from ..spec import spec_by_annotator
 
 ID = "C01"
 HANG_IS_VIOLATION = True
+CRASH_IS_VIOLATION = True
 TASK_TIMEOUT = 900.0
 META = {
     "rule": "case = (continuum, dissimilarity recipe, MIP back-end); non-trivial = distinct (continuum, recipe) "
